@@ -29,6 +29,8 @@ import ZODB.interfaces
 
 from . import POSException
 from . import utils
+from ._compat import _protocol
+from ._compat import dumps
 from .Connection import TransactionMetaData
 from .UndoLogCompatible import UndoLogCompatible
 from .utils import byte_chr
@@ -196,7 +198,14 @@ class BaseStorage(UndoLogCompatible):
 
             user = transaction.user
             desc = transaction.description
-            ext = transaction.extension_bytes
+            try:
+                ext = transaction.extension_bytes
+            except AttributeError:
+                # A transaction record from the iterator of a storage that
+                # does not serialize extensions (MappingStorage), handed
+                # to us by copyTransactionsFrom() / restore.
+                ext = transaction.extension
+                ext = dumps(ext, _protocol) if ext else b''
 
             self._ude = user, desc, ext
 
